@@ -1,5 +1,6 @@
 import Efp.Theory.Checker
 import Efp.Model.Graph
+import Efp.Proofs.Chain
 /-!
 # C08 — the calculation graph is consistent and complete
 
@@ -8,7 +9,9 @@ cycle) is an executable test that the check run evaluates, in Lean, on the graph
 real code after builds, edit histories, simulations and toggles (`K-graph`).
 *Update order*: a chain accepted by the verified checker `chainOk` lists each dependent exactly
 once, after everything it depends on, and contains **every** dependent of the edited inputs
-(`update_order_*` below, for every graph).
+(`update_order_*` below, for every graph).  The order the code itself derives has these properties
+on every graph without shared ids (`code_update_order_correct`, proved about the literal port of
+`attr_updates_chain` in `Proofs/Chain.lean`; termination is not proved).
 *Complete* (every true read is a recorded ancestor) is a statement about the rules' bodies; it is
 tested by perturbation on the real code and is an assumption (H1) of C01's theorems.
 -/
@@ -53,6 +56,19 @@ theorem update_order_contains_every_dependent (reads : Nat → List Nat) (calcs 
     rcases hcl n hnc with h1 | h1
     · exact h1
     · exact absurd ih (h1.2 m hm).2
+
+/-- **the update order the code derives** (literal port of `attr_updates_chain`), on every graph
+without shared ids, for every edited value and every fuel, whenever it returns: lists no value
+twice, contains every value reachable through `direct_children_with_id` and nothing else, and
+lists each value after all of its recorded ancestors that are themselves reachable -/
+theorem code_update_order_correct (g : Efp.Graph.G) (hwf : Efp.Graph.wfOk g = true) (fuel u : Nat) (hu : u < g.size)
+    (chain : List (Nat × Bool)) (h : Efp.Graph.attrUpdatesChain g fuel u = some chain) :
+    (chain.map Prod.fst).Nodup ∧
+    (∀ y, Efp.Graph.Reach g u y → y ∈ chain.map Prod.fst) ∧
+    (∀ y ∈ chain.map Prod.fst, Efp.Graph.Reach g u y) ∧
+    (∀ l₁ c l₂, chain.map Prod.fst = l₁ ++ c :: l₂ →
+      ∀ a ∈ (g.node c).anc, ∀ k, Efp.Graph.ReachN g u k a → k ≤ fuel → a ∈ l₁) :=
+  Efp.Graph.attrUpdatesChain_correct g (Efp.Graph.wfOk_sound g hwf) fuel u hu chain h
 
 /-! ## non-vacuity -/
 def demoReads : Nat → List Nat
